@@ -264,7 +264,22 @@ Inductive op :=
 | OLoad (p : bytes) (src : N)
 | OUnload (p : bytes)
 | OLine (l : N) (now : Z)
-| OGc (el : Z).
+| OGc (el : Z)
+| OMark (p : bytes) (m : nat) (ls : tuple) (e : Z).
+   (* Metric.ExpireDatum(e, ls...) on the m-th metric of p's running version,
+      called directly (what the VM's expire instruction does for `del ... after`;
+      the language has no such statement for a metric without keys) *)
+
+Definition mark (st : state) (p : bytes) (m : nat) (ls : tuple) (e : Z) : state :=
+  let x := getp p st in
+  match ps_handle x with
+  | None => st
+  | Some hd =>
+      match exec_effect (ps_heap x) (h_objs hd) (EExpire m ls e) 0%Z with
+      | Some h' => setp p (mkps h' (ps_handle x) (ps_loads x) (ps_errs x) (ps_unloads x) (ps_rterrs x)) st
+      | None => st
+      end
+  end.
 
 Definition step (st : state) (o : op) : state :=
   match o with
@@ -272,6 +287,7 @@ Definition step (st : state) (o : op) : state :=
   | OUnload p => unload st p
   | OLine l now => line st l now
   | OGc el => gc st el
+  | OMark p m ls e => mark st p m ls e
   end.
 
 Definition run_from (st : state) (ops : list op) : state := fold_left step ops st.
